@@ -45,7 +45,7 @@ func (eng *Engine) lemmaObligations(id string) *FuncResult {
 // Replay: run the real function on the solver's inputs and compare what it does with what the
 // solver's model predicts (results, or a panic for safe.* obligations).
 
-const replayElems = 48
+const replayElems = 128
 
 type replayPlan struct {
 	fn      *ssa.Function
@@ -109,14 +109,14 @@ func (eng *Engine) planReplay(fr *Frame, fc *FuncCtx, o *Obligation, results []*
 		case "int", "bool":
 			v.terms = []*Term{t}
 		case "bytes":
-			o.small = append(o.small, bvCmp("bvule", SlLen(t), BVLit64(40, 64)))
+			o.small = append(o.small, bvCmp("bvule", SlLen(t), BVLit64(128, 64)))
 			v.terms = []*Term{SlLen(t), SlCap(t), SlArr(t)}
 			row := Select(h0, SlArr(t))
 			for k := 0; k < replayElems; k++ {
 				v.terms = append(v.terms, Select(row, bvBin("bvadd", SlOff(t), BVLit64(uint64(k), 64))))
 			}
 		case "string":
-			o.small = append(o.small, bvCmp("bvule", StrLen(t), BVLit64(40, 64)))
+			o.small = append(o.small, bvCmp("bvule", StrLen(t), BVLit64(128, 64)))
 			v.terms = []*Term{StrLen(t)}
 			for k := 0; k < replayElems; k++ {
 				v.terms = append(v.terms, Select(StrData(t), BVLit64(uint64(k), 64)))
@@ -300,7 +300,7 @@ func tryReplay(eng *Engine, dir, id string, o *Obligation) string {
 		rn := fmt.Sprintf("r%d", i)
 		rnames = append(rnames, rn)
 		tn := types.TypeString(rs.At(i).Type(), qual)
-		fmt.Fprintf(&body, "\tvar %s %s\n", rn, tn)
+		fmt.Fprintf(&body, "\tvar %s %s\n\t_ = %s\n", rn, tn, rn)
 		switch shapeOf(rs.At(i).Type()) {
 		case "int":
 			prints = append(prints, fmt.Sprintf("fmt.Sprintf(\"r%d=%%d\", %s)", i, rn))
@@ -329,6 +329,18 @@ func tryReplay(eng *Engine, dir, id string, o *Obligation) string {
 	src.WriteString(")\n\n")
 	fmt.Fprintf(&src, "// replay of obligation %s (property %s)\nfunc TestGovcReplay(t *testing.T) {\n", o.name, id)
 	src.WriteString(body.String())
+	// optional input preparation (e.g. wrap model bytes in a correctly hashed and signed packet):
+	// /verif/replay/<pkg>.<func>.go defines govcPrepare with the function's parameter list
+	prep := filepath.Join(eng.verif, "replay", shortPkg(pkg.Path())+"."+f.Name()+".go")
+	havePrep := false
+	if _, err := os.Stat(prep); err == nil {
+		havePrep = true
+		var as []string
+		for i := range plan.inputs {
+			as = append(as, fmt.Sprintf("a%d", i))
+		}
+		fmt.Fprintf(&src, "\t%s = govcPrepare(%s)\n", strings.Join(as, ", "), strings.Join(as, ", "))
+	}
 	src.WriteString("\tvar panicked interface{}\n\tfunc() {\n\t\tdefer func() { panicked = recover() }()\n\t\t" + call + "\n\t}()\n")
 	src.WriteString("\tparts := []string{fmt.Sprintf(\"panicked=%t\", panicked != nil)}\n")
 	for _, p := range prints {
@@ -342,7 +354,11 @@ func tryReplay(eng *Engine, dir, id string, o *Obligation) string {
 	os.WriteFile(testFile, []byte(src.String()), 0o644)
 	rel := strings.TrimPrefix(strings.TrimPrefix(pkg.Path(), eng.modPath), "/")
 	target := filepath.Join(eng.repo, rel, "zz_govc_replay_test.go")
-	ov, _ := json.Marshal(map[string]map[string]string{"Replace": {target: testFile}})
+	repl := map[string]string{target: testFile}
+	if havePrep {
+		repl[filepath.Join(eng.repo, rel, "zz_govc_prepare_test.go")] = prep
+	}
+	ov, _ := json.Marshal(map[string]map[string]string{"Replace": repl})
 	ovFile := filepath.Join(dir, sanitizeFile(o.name)+".overlay.json")
 	os.WriteFile(ovFile, ov, 0o644)
 	replayCount++
